@@ -46,7 +46,7 @@ var pcNames = [...]string{"ObjTool.Open", "ObjFile.SourceLine", "symbolz POST"}
 var c12Fails = map[int][]string{
 	pcOpen:       {"error", "wrong-build-id", "empty-build-id"},
 	pcSourceLine: {"error", "empty", "empty-names", "zero-lines", "many-frames", "blank-frame", "all-blank"},
-	pcPost:       {"transport-error", "status-500", "status-500-pprof", "malformed", "other-addresses", "truncated", "partial", "non-hex", "empty-body"},
+	pcPost:       {"transport-error", "status-500", "status-500-pprof", "malformed", "other-addresses", "truncated", "partial", "non-hex", "empty-body", "late-bad-address", "late-garbage"},
 }
 
 type c12fault struct {
@@ -201,6 +201,11 @@ func (w *c12world) RoundTrip(req *http.Request) (*http.Response, error) {
 	}
 	out := sb.String()
 	switch fk {
+	case "late-bad-address":
+		// a good answer, then an address that does not fit in 64 bits
+		out += fmt.Sprintf("0x1%016x %s\n", w.h(7), c12Names[0])
+	case "late-garbage":
+		out += "0xnothex main\n\x00\xff garbage\n"
 	case "status-500":
 		resp.Status, resp.StatusCode = "500 Internal Server Error", 500
 	case "status-500-pprof":
